@@ -41,6 +41,27 @@ def _virtual_time() -> float:
     return TIME_BASE + lp._vtime
 
 
+import threading as _threading  # noqa: E402
+_thread_skew = _threading.local()
+
+
+def set_thread_skew(seconds: float) -> None:
+    """E7: server threads/processes never read the very same microsecond
+    from the clock; mailbox.Maildir builds its unique file names from it."""
+    _thread_skew.v = seconds
+
+
+class _MailboxTime:
+    """Stands in for the ``time`` module inside the stdlib ``mailbox``."""
+
+    def __getattr__(self, name):
+        return getattr(_time_mod, name)
+
+    @staticmethod
+    def time() -> float:
+        return _virtual_time() + getattr(_thread_skew, 'v', 0.0)
+
+
 class _VDatetime(_real_datetime):
     @classmethod
     def now(cls, tz=None):
@@ -105,6 +126,8 @@ def install_seams() -> None:
     _installed = True
     gc.disable()
     _time_mod.time = _virtual_time
+    import mailbox as _mailbox
+    _mailbox.time = _MailboxTime()
     import pymap.selected as sel
     sel.WeakSet = OrderedWeakSet
     import pymap.backend.dict.mailbox as dmb
@@ -206,13 +229,14 @@ class Session:
 class World:
     kind = 'base'
 
-    def __init__(self, seed: int = 0) -> None:
+    def __init__(self, seed: int = 0, loop=None) -> None:
         global _current_loop
         install_seams()
         self.seed = seed
-        random.seed(seed)
-        OrderedWeakSet.rotation = 0
-        self.loop = VLoop()
+        if loop is None:
+            random.seed(seed)
+            OrderedWeakSet.rotation = 0
+        self.loop = loop if loop is not None else VLoop()
         _current_loop = self.loop
         self.sessions: list[Session] = []
         self.closed = False
@@ -373,8 +397,8 @@ class MaildirWorld(World):
                  root: str | None = None, reuse: bool = False,
                  time_offset: float = 0.0, tmp_other_fs: bool = False,
                  bad_command_limit: int | None = 5,
-                 jail_cheap: bool = False) -> None:
-        super().__init__(seed)
+                 jail_cheap: bool = False, loop=None, jail=None) -> None:
+        super().__init__(seed, loop)
         from . import fsjail
         import tempfile
         from pymap.backend.maildir import MaildirBackend, Config, Login, \
@@ -396,8 +420,12 @@ class MaildirWorld(World):
         # maildir compares the clock with real file mtimes
         self._saved_time_base = TIME_BASE
         TIME_BASE = _real_time() + time_offset
-        self.jail = fsjail.Jail(self.root, cheap=jail_cheap)
-        self.jail.__enter__()
+        self.own_jail = jail is None
+        if jail is None:
+            self.jail = fsjail.Jail(self.root, cheap=jail_cheap)
+            self.jail.__enter__()
+        else:
+            self.jail = jail
         self.tmp_other_fs = tmp_other_fs
         users = users if users is not None else {'alice': ('pw', ())}
         self.users = users
@@ -427,7 +455,8 @@ class MaildirWorld(World):
         import tempfile
         import shutil
         from . import fsjail
-        self.jail.__exit__()
+        if self.own_jail:
+            self.jail.__exit__()
         tempfile.tempdir = self._saved_tempdir
         TIME_BASE = self._saved_time_base
         if self.own_root:
